@@ -59,3 +59,24 @@ def phantom_obstacle(oid, x=3.0, y=0.0):
 
 def environment_obstacle(oid, x=4.0, y=8.0):
     return EnvironmentObstacle(oid, ObstacleType.BUILDING, Circle(1.0, np.array([x, y])))
+
+
+def solution_trajectory(kind, values=None, t0=0, n=2):
+    """trajectory whose states carry exactly the fields of the solution state type `kind` (PM, ST, KS, KST, MB, Input, PMInput);
+    values(i, field) supplies the numbers (default: small concrete ones)"""
+    from commonroad.common.solution import StateFields
+    from commonroad.scenario.state import CustomState
+
+    val = values or (lambda i, f: 0.5 + i + 0.01 * (sum(map(ord, f)) % 17))
+    states = []
+    for i in range(n):
+        kw = {}
+        for f in StateFields[kind].value:
+            if f == "time_step":
+                kw[f] = t0 + i
+            elif f == "position":
+                kw[f] = np.array([val(i, "x"), val(i, "y")])
+            else:
+                kw[f] = val(i, f)
+        states.append(CustomState(**kw))
+    return Trajectory(t0, states)
